@@ -84,6 +84,11 @@ def _attempt(ctx, cls_name, path, build, spec, want):
             ctx.violate("rejects_valid", f"rejects_valid:{cls_name}:{path}", observed="ValidationError", expected="accepted", spec=dict(spec, path=path))
         return "rejected"
     except Exception as e:
+        import traceback as _tb
+
+        last = _tb.extract_tb(e.__traceback__)[-1].filename
+        if "/rv/" in last and "/site-packages/" not in last:
+            raise  # a bug in the harness itself is never a verdict
         ctx.violate_exc("wrong_exception", f"wrong_exception:{cls_name}:{path}:{type(e).__name__}", e, spec=dict(spec, path=path))
         return "error"
     if not want:
@@ -530,9 +535,14 @@ def run(ctx):
             ctx.case(("score", cls_name, field, "nan" if (isinstance(v, float) and v != v) else str(v)), {"kind": "score", "class": cls_name, "field": field, "value": str(v)})
             judge_score(ctx, seed, cls_name, field, v)
     # clips
-    for s, e in [(0.0, 1.0), (1.0, 1.0), (1.0, 0.5), (0, 0), (2, 1), (1e-9, 0.0), (5.0, 5.0 + 1e-12), (10.0, 9.0), (9.0, 10.0), (100.0, 20.0), (2.0, 10.0), (1.5, 1.25)]:
+    grid = [-2.0, -1, -0.0, 0, 0.0, 5e-324, 1e-9, 1, 2.0]
+    pairs = [(0.0, 1.0), (1.0, 1.0), (1.0, 0.5), (0, 0), (2, 1), (1e-9, 0.0), (5.0, 5.0 + 1e-12), (10.0, 9.0), (9.0, 10.0), (100.0, 20.0), (2.0, 10.0), (1.5, 1.25)]
+    pairs += [(a, b) for a in grid for b in grid]
+    for s, e in pairs:
         for strings in (False, True, "int_strings"):
             if strings == "int_strings" and (s != int(s) or e != int(e)):
+                continue
+            if strings and (s < 0 or e < 0 or 0 < abs(s) < 1e-6 or 0 < abs(e) < 1e-6):
                 continue
             ctx.case(("clip", "lt" if s < e else "eq" if s == e else "gt", "strings" if strings else "numbers"), {"kind": "clip", "start": s, "end": e, "as_strings": strings})
             judge_clip(ctx, s, e, strings)
